@@ -282,18 +282,6 @@ def check(ctx):
 
     # ---- R4 label lookups -----------------------------------------------------------------
     gv = repo.own_method("GeckoStructAccessor", "_get_value")
-    ok = False
-    for t in walk_no_nested(gv.node):
-        if isinstance(t, ast.Try):
-            lookups = [s for s in t.body for n in ast.walk(s) if isinstance(n, ast.Subscript) and ast.unparse(n.value) == "self.items"]
-            if lookups:
-                for h in t.handlers:
-                    tn = ast.unparse(h.type) if h.type else ""
-                    if h.type is None or "IndexError" in tn or tn in ("Exception", "LookupError"):
-                        if any(isinstance(n, ast.Assign) and isinstance(n.value, ast.Constant) and n.value.value == "Unknown" for s in h.body for n in ast.walk(s)):
-                            ok = True
-    ctx.ob("R4", "GeckoStructAccessor._get_value::unknown-on-out-of-range", ok,
-           "enum label lookup is not protected by `except IndexError -> 'Unknown'`: a stored value beyond the label list raises", gv.loc)
     # interpret it: 3 labels, raw 0..255
     interp = Interp(repo, max_depth=6)
     acc_cls = repo.cls("GeckoStructAccessor")
